@@ -119,9 +119,10 @@ func (c *consumer) run() {
 		c.e.mu.Lock()
 		c.events = append(c.events, o)
 		pace := c.pace
+		cb := c.onEvent
 		c.e.mu.Unlock()
-		if c.onEvent != nil {
-			c.onEvent(&c.events[len(c.events)-1])
+		if cb != nil {
+			cb(&o)
 		}
 		if c.route && o.kind == evFrame {
 			if c.edit {
